@@ -1,0 +1,21 @@
+//go:build verif
+
+package cache
+
+// VerifPersistHook, when set by a verification harness, is called by the persist closure of
+// directoryCache.Add's memory writer at its four scheduling points:
+//
+//	0 before the cached bytes are written to the wip file
+//	1 before the wip file is renamed to its final path
+//	2 before the deferred wip Close and release of the data-cache reference
+//	3 after the release
+//
+// It lets a harness decide where the (possibly background) persistence steps happen relative to other
+// cache operations. It is nil unless a harness installs it; without the verif build tag it does not exist.
+var VerifPersistHook func(key string, stage int)
+
+func verifPersistStage(key string, stage int) {
+	if h := VerifPersistHook; h != nil {
+		h(key, stage)
+	}
+}
